@@ -50,8 +50,25 @@ def T(dtype, shape, vals=None):
 
 
 def to_torch(t):
+    """the tensor a JSON record denotes; record key 'layout' (robustness audit, class 'memory layout') stores the same
+    logical tensor as a non-contiguous view: 't' transposed-contiguous-transposed, 'off' slice of a larger buffer with a
+    storage offset, 'step' every second cell of a larger buffer.  torch.save keeps the view, torch.load gives it back."""
     import torch
-    return torch.tensor(t["vals"], dtype=torch.int64).reshape(t["shape"]).to(getattr(torch, t["dtype"]))
+    x = torch.tensor(t["vals"], dtype=torch.int64).reshape(t["shape"]).to(getattr(torch, t["dtype"]))
+    how = t.get("layout")
+    if how == "t" and x.ndim == 2:
+        return x.t().contiguous().t()
+    if how == "step" and x.ndim >= 1:
+        big = torch.full([2 * n for n in x.shape], 3, dtype=x.dtype)
+        v = big[tuple(slice(None, None, 2) for _ in x.shape)]
+        v.copy_(x)
+        return v
+    if how in ("off", "t", "step"):
+        big = torch.full((x.numel() + 7,), 3, dtype=x.dtype)
+        v = big[4:4 + x.numel()].view(x.shape)
+        v.copy_(x)
+        return v
+    return x
 
 
 def canon(x):
@@ -178,6 +195,11 @@ def coq_eval_bitlists(workdir, terms, shard=150, tag="bits", timeout=900):
 SUBS = ("feat", "ali", "ref")
 
 
+def _sub(case, s):
+    """name of the sub-directory holding kind s (non-default names: robustness audit, class 'optional state')"""
+    return (case.get("subdirs") or {}).get(s, s)
+
+
 def _fname(case, uid):
     return case.get("prefix", "") + uid + case.get("suffix", ".pt")
 
@@ -222,11 +244,11 @@ def _listing(case, use_subset, suppress_alis):
     return sorted(lst), has
 
 
-def _snapshot(root, files):
+def _snapshot(root, files, case=None):
     import torch
     snap = {}
     for s in SUBS:
-        d = os.path.join(root, s)
+        d = os.path.join(root, _sub(case or {}, s))
         if not os.path.isdir(d):
             continue
         snap[s] = {}
@@ -282,27 +304,28 @@ def run_dir_case(case, root):
     d = os.path.join(root, "d")
     shutil.rmtree(d, ignore_errors=True)
     files = _files(case)
-    os.makedirs(os.path.join(d, "feat"))
+    os.makedirs(os.path.join(d, _sub(case, "feat")))
     if case.get("mk_ali", True) and (files["ali"] or case.get("empty_ali_dir")):
-        os.makedirs(os.path.join(d, "ali"))
+        os.makedirs(os.path.join(d, _sub(case, "ali")))
     if case.get("mk_ref", True) and (files["ref"] or case.get("empty_ref_dir")):
-        os.makedirs(os.path.join(d, "ref"))
+        os.makedirs(os.path.join(d, _sub(case, "ref")))
     for s in SUBS:
-        if os.path.isdir(os.path.join(d, s)):
+        if os.path.isdir(os.path.join(d, _sub(case, s))):
             for name, t in files[s].items():
-                torch.save(to_torch(t), os.path.join(d, s, name))
+                torch.save(to_torch(t), os.path.join(d, _sub(case, s), name))
     cfg = case.get("cfg", {})
     side = []
     steps = []
-    snap = _snapshot(d, files)
+    snap = _snapshot(d, files, case)
     ds = None
+    sub_kw = {k + "_subdir": v for k, v in (case.get("subdirs") or {}).items()}
     try:
         params = data.SpectDataParams(sos=cfg.get("sos"), eos=cfg.get("eos"),
                                       subset_ids=list(case.get("subset") or []))
         ds = data.SpectDataSet(d, file_prefix=case.get("prefix", ""), file_suffix=case.get("suffix", ".pt"),
-                               warn_on_missing=False, params=params,
+                               warn_on_missing=bool(case.get("warn_missing", False)), params=params,
                                suppress_alis=bool(cfg.get("suppress_alis", False)),
-                               tokens_only=bool(cfg.get("tokens_only", False)))
+                               tokens_only=bool(cfg.get("tokens_only", False)), **sub_kw)
     except Exception as e:  # construction is not expected to fail
         return {"steps": [], "side": ["constructor raised " + exc_kind(e) + ": " + str(e)[:200]]}
     ids, has = _listing(case, True, bool(cfg.get("suppress_alis", False)))
@@ -315,7 +338,13 @@ def run_dir_case(case, root):
         if op["api"] == "validate":
             oids, ohas = ids, has
             try:
-                r = data.validate_spect_data_set(ds, op["fix"])
+                # entry-point styles: positional, by keyword, documented default (fix=None) left out
+                if op.get("style") == "kw":
+                    r = data.validate_spect_data_set(data_set=ds, fix=op["fix"])
+                elif op.get("style") == "omit" and op["fix"] is None:
+                    r = data.validate_spect_data_set(ds)
+                else:
+                    r = data.validate_spect_data_set(ds, op["fix"])
                 if r is not None:
                     side.append("validate_spect_data_set returned " + repr(r)[:50])
             except Exception as e:
@@ -326,24 +355,42 @@ def run_dir_case(case, root):
             table = os.path.join(root, "info.txt")
             if os.path.exists(table):
                 os.remove(table)
-            args = [d, table, "--file-prefix", case.get("prefix", ""), "--file-suffix", case.get("suffix", ".pt")]
+            to_stdout = bool(op.get("stdout"))
+            args = [d] + ([] if to_stdout else [table])
+            if case.get("prefix", "") != "" or not op.get("omit_defaults"):
+                args += ["--file-prefix", case.get("prefix", "")]
+            if case.get("suffix", ".pt") != ".pt" or not op.get("omit_defaults"):
+                args += ["--file-suffix", case.get("suffix", ".pt")]
+            for k, v in (case.get("subdirs") or {}).items():
+                args += ["--" + k + "-subdir", v]
             if op["strict"]:
                 args.append("--strict")
             if op["fix"] is not None:
-                args += ["--fix"] + ([] if op.get("bare_fix") else [str(op["fix"])])
+                if op.get("bare_fix"):
+                    args += ["--fix"]
+                elif op.get("eq_fix"):
+                    args += ["--fix=" + str(op["fix"])]
+                else:
+                    args += ["--fix", str(op["fix"])]
             try:
-                rc = command_line.get_torch_spect_data_dir_info(args)
+                import contextlib
+                import io
+                buf = io.StringIO()
+                with contextlib.redirect_stdout(buf):
+                    rc = command_line.get_torch_spect_data_dir_info(args)
                 if rc != 0:
                     side.append(f"get_torch_spect_data_dir_info returned {rc}")
                     out["exc"] = "other:rc"
                 else:
-                    out["report"] = _parse_report(open(table).read())
+                    if not to_stdout and buf.getvalue():
+                        side.append("report file given, yet something was printed on stdout")
+                    out["report"] = _parse_report(buf.getvalue() if to_stdout else open(table).read())
                     if not out["report"].pop("format_ok"):
                         side.append("report keys are not the documented zero-padded, sorted set")
             except Exception as e:
                 out["exc"] = exc_kind(e)
                 out["msg"] = str(e)[:160]
-        post = _snapshot(d, files)
+        post = _snapshot(d, files, case)
         # files that no listed utterance owns, and every feature payload, must be untouched
         owned = {(s, _fname(case, u)) for u in oids for s in SUBS}
         for s in post:
@@ -530,6 +577,11 @@ def exhaustive_cases(full):
     for Tn, s, e, fx in itertools.product(range(0, 3), rng_b, rng_b, [None, 0, 1, 2, 3]):
         r = ref2([[1, s, e], [0, 0, Tn]])
         cases.append(mkcase([utt("b", Tn, ref=r)], [V(fx), V(None)]))
+    # (2b) transcripts in which NO token has a start (every start is negative) but some end is given: the boundary
+    # loop must still see the unpaired ends (robustness audit; quick and thorough alike)
+    for Tn, e, e2, fx in itertools.product((0, 2), range(-2, 4), (-1, 1), (None, 1)):
+        for rows in ([[1, -1, e]], [[1, -1, e], [0, -2, e2]]):
+            cases.append(mkcase([utt("b", Tn, ref=ref2(rows))], [V(fx), V(None)], stream="audit-nostart"))
     # (3) dtypes of each tensor kind, strict and fixing
     dts = list(DT)
     for dt, fx, which in itertools.product(dts, [None, 0], ["feat", "ali", "ref1", "ref2"]):
@@ -630,6 +682,9 @@ def rand_tensor_ref(rng, Tn, two_d, defects):
     if not two_d:
         return ref1([rng.randint(0, 4) for _ in range(R)])
     rows = []
+    if defects and R and rng.random() < 0.15:
+        # no token has a start; ends are a mixture of unknown and given (unpaired) ones
+        return ref2([[rng.randint(0, 4), rng.choice([-1, -1, -2]), rng.choice([-1, 0, rng.randint(0, Tn + 1)])] for _ in range(R)])
     for _ in range(R):
         kind = rng.choice(["none", "ok", "ok", "ok"] + defects)
         tok = rng.randint(0, 4)
@@ -642,7 +697,7 @@ def rand_tensor_ref(rng, Tn, two_d, defects):
             rows.append([tok, -1, rng.randint(0, Tn + 2)] if rng.random() < .5 else [tok, rng.randint(0, Tn + 2), -1])
         elif kind == "over":
             s = rng.randint(0, Tn + 1)
-            rows.append([tok, s, max(s, Tn + rng.randint(1, 3))])
+            rows.append([tok, s, max(s, Tn + (rng.randint(1, 3) if rng.random() < 0.9 else rng.choice([1000, 10 ** 6, 2 ** 40])))])
         elif kind == "rev":
             e = rng.randint(0, Tn)
             rows.append([tok, e + rng.randint(1, 2), e])
@@ -671,9 +726,14 @@ def random_dir_case(rng, flavour):
     has_ref = rng.random() < .8
     p_def = {"valid": 0.0, "light": 0.25, "heavy": 0.6}[flavour]
     utts = []
+    # utterance ids: the usual u0..u3, or ids one of which extends another by a character that sorts before '.'
+    # (order by id differs from order by file name), contains the suffix, or starts like the prefix
+    names = ["u%d" % i for i in range(n)]
+    if rng.random() < 0.3:
+        names = rng.sample(["a", "a-1", "a+", "a.pt", "p_a", "ab", "b", "a.", "A"], n)
     for i in range(n):
         Tn = rng.choice([0, 1, 2, 3, 4, 5])
-        u = utt("u%d" % i, Tn, F, ali=False)
+        u = utt(names[i], Tn, F, ali=False)
         if has_ali:
             Tp = Tn
             if rng.random() < p_def:
@@ -696,20 +756,42 @@ def random_dir_case(rng, flavour):
             u["feat"]["dtype"] = "float64"
         if rng.random() < p_def / 10:
             u["feat"] = T("float32", [Tn])
+        for s_ in ("feat", "ali", "ref"):
+            # the same logical tensor stored as a non-contiguous view
+            if u.get(s_) is not None and rng.random() < 0.2:
+                u[s_]["layout"] = rng.choice(["t", "off", "step"])
         utts.append(u)
-    fixes = [None, 0, 1, 1, 2, 3, 5, -1, True, False]
+    fixes = [None, 0, 1, 1, 2, 3, 5, -1, True, False, 1000]
     ops = []
     for _ in range(rng.choice([1, 2, 2, 3])):
         if rng.random() < .3:
-            strict, fx = rng.choice([(False, None), (True, None), (False, 0), (False, 1), (False, 2), (False, 4)])
-            ops.append(CLI(strict, fx, bare=(fx == 1 and rng.random() < .3)))
+            strict, fx = rng.choice([(False, None), (True, None), (False, 0), (False, 1), (False, 2), (False, 4), (False, 1000)])
+            op = CLI(strict, fx, bare=(fx == 1 and rng.random() < .3))
+            if fx is not None and not op.get("bare_fix") and rng.random() < .3:
+                op["eq_fix"] = True          # --fix=N
+            if rng.random() < .25:
+                op["stdout"] = True          # report printed instead of written to the named file
+            if rng.random() < .25:
+                op["omit_defaults"] = True   # --file-prefix / --file-suffix left out when they have their defaults
+            ops.append(op)
         else:
-            ops.append(V(rng.choice(fixes)))
+            op = V(rng.choice(fixes))
+            r_ = rng.random()
+            if r_ < .15:
+                op["style"] = "kw"
+            elif r_ < .3:
+                op["style"] = "omit"
+            ops.append(op)
     ops = [_sane_op(utts, op) for op in ops]
     extra = {}
+    if rng.random() < .2:
+        # non-default sub-directory names, handed to the data set and to the command line alike
+        extra["subdirs"] = rng.choice([{"feat": "f", "ali": "a", "ref": "r"}, {"ali": "feats"}, {"ref": "ali2", "feat": "ref2"}])
+    if rng.random() < .15:
+        extra["warn_missing"] = True
     if rng.random() < .25:
         pre, suf = rng.choice(["", "p_", "ab"]), rng.choice([".pt", ".pt", ".x", ""])
-        extra = {"prefix": pre, "suffix": suf}
+        extra.update({"prefix": pre, "suffix": suf})
         if rng.random() < .5:
             extra["decoys"] = [{"sub": rng.choice(["feat", "ali", "ref"]) if (has_ali and has_ref) else "feat",
                                 "name": pre + "zz" + str(rng.randint(0, 9)) + suf, "tensor": T("int32", [7], [1] * 7)}]
@@ -718,7 +800,7 @@ def random_dir_case(rng, flavour):
     cfg = {}
     r = rng.random()
     if r < .15:
-        cfg = rng.choice([{"sos": 6}, {"eos": 7}, {"sos": 6, "eos": 7}])
+        cfg = rng.choice([{"sos": 6}, {"eos": 7}, {"sos": 6, "eos": 7}, {"sos": 0}, {"eos": 0}, {"sos": 0, "eos": 7}])
     elif r < .2:
         cfg = {"tokens_only": True}
     elif r < .23:
@@ -772,6 +854,10 @@ def rw_cases(rng, n):
                 hs.append(ref1([rng.choice(pool) for _ in range(L)], rng.choice(["int64", "int32", "float32"])))
             else:
                 hs.append(ref2([[rng.choice(pool), rng.randint(-1, 8), rng.randint(-1, 8)] for _ in range(L)]))
+        for t_ in [r] + hs:
+            # stored reference / handed hypothesis as a non-contiguous view of the same logical tensor
+            if rng.random() < .3:
+                t_["layout"] = rng.choice(["t", "off", "step"])
         cases.append({"kind": "rw", "ref": r, "cfg": {"sos": sos, "eos": eos, "tokens_only": rng.random() < .25},
                       "hyps": hs, "lang": rng.random() < .3, "default_dir": False, "stream": "rw-random"})
     return cases
